@@ -235,6 +235,26 @@ def gen_case(rng, maxlen=22, maxv=5):
     return lines
 
 
+def gen_graph_zigzag(rng, maxlen=26, maxv=7):
+    """all vertices first, then edges come and go: many classes are born by removals and merged again by single cells
+    (the surjective diamond with three or more unpaired chains, several of them with stolen births)"""
+    nv = rng.randrange(4, maxv + 1); lines = []; f = 0
+    for v in rng.sample(range(nv), nv): lines.append('ins %d %d' % (f, v)); f += rng.choice([0, 1])
+    edges = set()
+    for _ in range(rng.randrange(8, maxlen)):
+        f += rng.choice([0, 0, 1])
+        if edges and rng.random() < 0.45:
+            e = rng.choice(sorted(edges)); edges.remove(e); lines.append('rm %d %d %d' % (f, e[0], e[1]))
+        else:
+            cands = [e for e in itertools.combinations(range(nv), 2) if e not in edges]
+            if not cands: continue
+            e = rng.choice(cands); edges.add(e); lines.append('ins %d %d %d' % (f, e[0], e[1]))
+        if rng.random() < 0.1: lines.append('idle')
+        if rng.random() < 0.03: lines.append('bars')
+    lines.append('bars')
+    return lines
+
+
 def valid(case):
     cur = set()
     for l in case:
@@ -260,7 +280,7 @@ def run(ctx):
     thorough = ctx.tier == 'thorough'
     ctx.rule = ('random simplicial zigzags on 2-5 vertices (6 in the thorough tier), 1-22 arrows (40 thorough): insertion of a cell whose facets are present (62%), removal of a maximal cell, identity arrows (8%), 15% insertion-only sequences; '
                 'filtration values non-decreasing / non-increasing / constant with ties; ignoreCyclesAboveDim in a quarter of the cases; intervals printed after random prefixes and at the end, for the plain engine by arrow number and for both filtered front-ends by value; '
-                'one stream per internal column type; non-trivial = at least one removal and one interval of dimension >= 1; distinct by text')
+                'plus graph zigzags (4-7 vertices first, then 8-26 edge insertions / removals: classes born by removals and merged by single cells); one stream per internal column type; non-trivial = at least one removal and at least 6 arrows; distinct by text')
     vlib.lean_stage(ctx, MODULE, THEOREMS)
     src = os.path.join(vlib.VERIF, 'harness', 'hC07.cpp')
     cols = COLS if thorough else COLS[:4]
@@ -271,11 +291,12 @@ def run(ctx):
         ctx.violation('harness-build', 'harness does not compile against /repo: ' + str(errs)[-1500:], found_input=False); return
     drv = [vlib.driver_path(), 'C07']
     n = 800 if thorough else 120
-    nt = lambda c: any(l.startswith('rm') for l in c) and any(s[-1] and len(s[-1]) >= 3 for s in parse(c)[0] if s[1])
+    nt = lambda c: any(l.startswith('rm') for l in c) and sum(1 for l in c if l.split()[0] in ('ins', 'rm')) >= 6
     for c in cols:
         exe = exes.get('hC07_' + c)
         if not exe: ctx.notes.append('column type %s does not compile: %s' % (c, errs.get('hC07_' + c, '')[-200:])); continue
         cases = [gen_case(ctx.rng, 40 if thorough else 22, 6 if thorough and i % 4 == 0 else 5) for i in range(n if c == cols[0] else n // 2)]
+        cases += [gen_graph_zigzag(ctx.rng, 40 if thorough else 26) for _ in range(n // 2 if c == cols[0] else n // 8)]
         vlib.correspondence(ctx, c.lower(), [exe], drv, cases, nontrivial=nt, keep_prefix=0, oracle=oracle, valid=valid)
     if thorough and exes.get('hC07_san'):
         vlib.correspondence(ctx, 'asan_ubsan', [exes['hC07_san']], drv, [gen_case(ctx.rng, 30) for _ in range(300)], nontrivial=nt, keep_prefix=0, oracle=oracle, valid=valid)
